@@ -100,7 +100,14 @@ func runHandle(id string, parts []string) string {
 	env.SetBehaviour(key, beh)
 	timeout := 9 * time.Second
 	start := time.Now()
-	resps, st := env.Query(f["l"], q, f["client"], timeout, 60*time.Millisecond)
+	var resps [][]byte
+	var st string
+	if f["ka"] == "1" {
+		// the query travels on a persistent client connection (second and later query on a connection / session)
+		resps, st = env.QueryKA(f["l"], q, f["client"], timeout, 25*time.Millisecond)
+	} else {
+		resps, st = env.Query(f["l"], q, f["client"], timeout, 60*time.Millisecond)
+	}
 	el := time.Since(start)
 	ups := env.TakeQueries(key)
 	var us []string
